@@ -53,6 +53,16 @@ def predJson (p : Rt.Pred) : Json :=
     ("outcome", Json.str p.outcome), ("finish", Json.arr (p.finish.map Json.str).toArray),
     ("evA", Json.arr (p.evA.map Json.str).toArray), ("evB", Json.arr (p.evB.map Json.str).toArray)]
 
+/-- C14, the cancellation half of its last sentence: when the query's context is cancelled
+    while the result set is still open (the reference machine says so: it has every Close
+    of the sequence return the context's error), no Close of the implementation presents
+    the iteration as ended normally -/
+def cancelReported (c : Case) (p : Pred) (o : Obs) : Bool :=
+  if c.op != "iter" || c.cancelAt.isNone then true else
+  let want := (c.calls.zip p.returns).filterMap fun (call, r) => if call == "close" then some r else none
+  if want.isEmpty || !want.all (· == "ctx") then true else
+  (closeResults c o).all (· != "")
+
 def handleL4 (j : Json) : Except String Json := do
   let c := parseL4Case (← j.getObjVal? "case")
   let o := parseL4Obs (← j.getObjVal? "obs")
@@ -65,7 +75,7 @@ def handleL4 (j : Json) : Except String Json := do
      ("diff", Json.str (String.intercalate "; " (ds.map (·.2)))),
      ("c09", Json.bool (holdsC09tx c o)), ("c06", Json.bool o.rowsFaithful),
      ("c12", Json.bool (holdsC12 c o)), ("c13", Json.bool (holdsC13 c o)),
-     ("c14", Json.bool (holdsC14 c o)), ("c15", Json.bool (holdsC15 c o)),
+     ("c14", Json.bool (holdsC14 c o && cancelReported c p o)), ("c15", Json.bool (holdsC15 c o)),
      ("c20", Json.bool (holdsC20 c o))])
 
 open Sqlair.Cache in
